@@ -43,7 +43,7 @@ COMPONENTS_STUB = ["pristine forked interpreter as the restart reference",
                    "simulated machine for the controller calls",
                    "structural snapshot function"]
 KINDS = ["place", "allocate", "route", "tables", "minimise", "wrapper",
-         "bitfield", "controller", "covering"]
+         "bitfield", "controller", "covering", "misc"]
 PLACERS = ["sa_c", "sa_python", "hilbert", "rcm", "breadth_first",
            "sequential", "rand"]
 
@@ -327,10 +327,105 @@ class Caller(object):
             return self.call_bitfield(t)
         if kind == "covering":
             return self.call_covering(t)
+        if kind == "misc":
+            return self.call_misc(t)
         return self.call_controller(t)
 
     def norm(self, r):
         return canon(r, self.RoutingTree)
+
+    def call_misc(self, t):
+        """Smaller library entry points: geometry (module-level random
+        seeded), machine description utilities, flood-fill regions, struct
+        files, Machine defaults."""
+        par = self.par
+        which = t.draw(6)
+        if which == 0:
+            geo = rig_module("rig.geometry")
+            self.seed_globals(t)
+            W, H = 1 + t.draw(12), 1 + t.draw(12)
+            a = (t.draw(W), t.draw(H), 0)
+            b = (t.draw(W), t.draw(H), 0)
+            out = [geo.shortest_torus_path(a, b, W, H),
+                   geo.shortest_torus_path_length(a, b, W, H),
+                   geo.shortest_mesh_path(a, b),
+                   list(geo.concentric_hexagons(t.draw(4), (a[0], a[1])))]
+            return "geometry", canon(out)
+        if which == 1:
+            mcmod = rig_module("rig.machine_control.machine_controller")
+            parutils = rig_module("rig.place_and_route.utils")
+            rtutils = rig_module("rig.routing_table.utils")
+            consts = rig_module("rig.machine_control.consts")
+            W, H = 1 + t.draw(4), 1 + t.draw(4)
+            si = mcmod.SystemInfo(W, H)
+            for x in range(W):
+                for y in range(H):
+                    if t.draw(6) == 0:
+                        continue
+                    n = 1 + t.draw(18)
+                    states = [consts.AppState.run] + [
+                        consts.AppState.idle if t.draw(4) else
+                        consts.AppState.run for _ in range(n - 1)]
+                    links = {l for l in self.Links if t.draw(5)}
+                    si[(x, y)] = mcmod.ChipInfo(
+                        num_cores=n, core_states=states, working_links=links,
+                        largest_free_sdram_block=1000 * t.draw(100),
+                        largest_free_sram_block=t.draw(2000),
+                        largest_free_rtr_mc_block=t.draw(1024))
+            snap = [dict(si), si.width, si.height]
+            before = self.snap(snap)
+            m = parutils.build_machine(si)
+            cons = parutils.build_core_constraints(si)
+            tl = rtutils.build_routing_table_target_lengths(si)
+            if self.snap(snap) != before:
+                self.w.violate("MUT", "build_machine / build_core_constraints "
+                               "modified the SystemInfo",
+                               kind="argument-mutated", call="utils")
+            return "utils", canon([m, cons, tl], self.RoutingTree)
+        if which == 2:
+            regions = rig_module("rig.machine_control.regions")
+            targets = {}
+            for _ in range(1 + t.draw(40)):
+                xy = (t.draw([4, 16, 64][t.draw(3)]), t.draw(16))
+                targets.setdefault(xy, set()).add(1 + t.draw(17))
+            before = self.snap([targets])
+            out = list(regions.compress_flood_fill_regions(targets))
+            if self.snap([targets]) != before:
+                self.w.violate("MUT", "compress_flood_fill_regions modified "
+                               "its targets", kind="argument-mutated",
+                               call="regions")
+            return "regions", canon(out)
+        if which == 3:
+            sf = rig_module("rig.machine_control.struct_file")
+            import pkg_resources
+            data = pkg_resources.resource_string("rig", "boot/sark.struct")
+            a = sf.read_struct_file(data)
+            # the caller customises *its* copy ...
+            a[b"sv"].update_default_values(hw_ver=1 + t.draw(5),
+                                           led0=t.draw(1 << 16))
+            # ... a second parse must not see that
+            b_ = sf.read_struct_file(data)
+            return "struct_file", canon([Caller.structs_canon(b_),
+                                         b_[b"sv"].pack()])
+        if which == 4:
+            m1 = par.Machine(2 + t.draw(3), 2)
+            m1.chip_resources[par.Cores] = t.draw(5)
+            m1.dead_chips.add((0, 1))
+            m1[(1, 1)] = {par.Cores: 1, par.SDRAM: 2, par.SRAM: 3}
+            m2 = par.Machine(3, 3)
+            cp = m1.copy()
+            cp.dead_links.add((0, 0, self.Links.north))
+            return "machine_defaults", canon([m2, m1, cp], self.RoutingTree)
+        rt = self.rt
+        e1 = rt.RoutingTableEntry({rt.Routes.north}, t.draw(100), 0xffffffff)
+        e1.sources.add(rt.Routes.south)
+        e2 = rt.RoutingTableEntry({rt.Routes.east}, 1, 0xffffffff)
+        netmod = rig_module("rig.netlist")
+        sinks = [prgen.V(1), prgen.V(2)]
+        n1 = netmod.Net(prgen.V(0), sinks)
+        n1.sinks.append(prgen.V(3))
+        return "entries_nets", canon([e2, len(sinks), [repr(x) for x in
+                                                        n1.sinks]])
 
     def call_covering(self, t):
         """Minimisers on small dense tables (few key bits, few routes), where
